@@ -21,7 +21,12 @@ def beta_(p):
             lambda x: mpf(0) if x <= 0 else (mpf(1) if x >= 1 else betainc(a, b, 0, x, regularized=True)))
 def chi2(p):
     k = mpf(p[0])
-    return gamma_([int(2 * p[0]), 2])      # shape k/2 (quarters: 2k), rate 1/2 (quarters: 2)
+    pdf0, cdf0 = gamma_([int(2 * p[0]), 2])      # shape k/2 (quarters: 2k), rate 1/2 (quarters: 2)
+    # the left end point belongs to the support for k >= 2 (x^(k/2 - 1) with 0^0 = 1): 1/2 for k = 2, 0 beyond; singular for k = 1
+    def pdf(x):
+        if x == 0: return mpf(0) ** (k / 2 - 1) / (2 ** (k / 2) * gamma(k / 2))
+        return pdf0(x)
+    return pdf, cdf0
 def t_(p):
     v = Q(p[0])
     pdf = lambda x: gamma((v + 1) / 2) / (sqrt(v * pi) * gamma(v / 2)) * (1 + x * x / v) ** (-(v + 1) / 2)
@@ -121,11 +126,16 @@ def points(kind, p, cdf):
         sc = 1024 if abs(m) < 2 ** 16 else 1
         xs.add((int(floor(m * sc + mpf(1) / 2)), sc))
     extra = {"Uniform": [(p[0], 4), (p[1], 4), (p[0] - 1, 4), (p[1] + 1, 4), (p[0] - 400, 4), (p[1] + 4000, 4)] if kind == "Uniform" else [],
-             "Beta": [(-1, 4), (5, 4), (-100, 1), (1, 1024), (1023, 1024)], "Gamma": [(-1, 4), (-1000, 1), (1, 1024)], "ChiSquared": [(-1, 4), (-7, 1), (1, 1024)],
+             "Beta": [(-1, 4), (5, 4), (-100, 1), (1, 1024), (1023, 1024), (0, 1), (1, 1)], "Gamma": [(-1, 4), (-1000, 1), (1, 1024), (0, 1)], "ChiSquared": [(-1, 4), (-7, 1), (1, 1024), (0, 1)],
              "Exponential": [(-1, 4), (0, 1), (-50, 1)], "Pareto": [(p[1] - 1, 4), (p[1], 4), (-3, 1), (0, 1), (p[1] * 64, 4)] if kind == "Pareto" else [],
              "Normal": [(p[0] - 40 * p[1], 4), (p[0] + 30 * p[1], 4)] if kind == "Normal" else [], "T": [(0, 1), (-1000, 1), (4000, 1)], "Gumbel": [(p[0] - 8 * p[1], 4), (p[0] + 200 * p[1], 4), (p[0] - 3000 * p[1], 4)] if kind == "Gumbel" else []}
     for e in extra.get(kind, []): xs.add(e)
-    return sorted(xs, key=lambda t: mpf(t[0]) / t[1])
+    seen, out = set(), []
+    for t in sorted(xs, key=lambda t: (mpf(t[0]) / t[1], t[1])):
+        v = mpf(t[0]) / t[1]
+        if v in seen: continue
+        seen.add(v); out.append(t)
+    return out
 
 with open(OUT, "w") as f:
     for kind, (mk, plist) in GRID.items():
